@@ -161,6 +161,11 @@ func checkSpans(src string, toks []lexer.Token) []spanFail {
 		if cl == "variable" {
 			text = stripBlanks(text)
 		}
+		if cl == "identifier" && strings.HasPrefix(text, "\\") {
+			// "\ Foo" lexes as the qualified name \Foo exactly as "$ x" lexes as $x: the blanks the lexer
+			// skips between the leading separator and the name are not part of the token text
+			text = strings.ReplaceAll(stripBlanks(text), "　", "")
+		}
 		if literalChecked(cl, text) && t.Literal() != text {
 			add(spanFail{"literal", i, cl, s, fmt.Sprintf("token #%d %s literal %q but source[%d:%d] = %q", i, cl, clip(t.Literal()), s, e, clip(text))})
 		}
@@ -286,6 +291,10 @@ func gapClass(gap string, atFileStart bool) string {
 		return "block-comment"
 	case strings.Contains(gap, "?>") || strings.Contains(gap, "<?php"):
 		return "php-tag/html"
+	case strings.ContainsAny(gap, "\"'`") && (strings.Contains(gap, "\\\n") || strings.Contains(gap, "\\\r\n")):
+		return "string with backslash-newline"
+	case strings.HasPrefix(gap, "b'") || strings.Contains(gap, " b'") || strings.Contains(gap, "\nb'"):
+		return "byte-literal"
 	case strings.ContainsAny(gap, "\"'`") && strings.Contains(gap, "{$"):
 		return "interpolated-string"
 	case strings.ContainsAny(gap, "\"'`") && strings.Contains(gap, "\n"):
@@ -302,6 +311,29 @@ func gapClass(gap string, atFileStart bool) string {
 		return "newline"
 	case strings.TrimSpace(gap) != gap || gap == "":
 		return "whitespace"
+	}
+	return "plain"
+}
+
+// htmlGapClass: the same for documents lexed by the HtmlLexer (<!DOCTYPE ... documents).
+func htmlGapClass(gap string) string {
+	switch {
+	case strings.Contains(gap, "<!--"):
+		return "html-comment"
+	case strings.Contains(gap, "<![CDATA["):
+		return "cdata"
+	case strings.Contains(gap, "<?"):
+		return "processing-instruction"
+	case strings.ContainsAny(gap, "\"'`") && strings.Contains(gap, "\n"):
+		return "multi-line-quoted-string"
+	case strings.ContainsAny(gap, "\"'`"):
+		return "quoted-string"
+	case strings.Contains(gap, "{$") || strings.Contains(gap, "@{"):
+		return "text-interpolation"
+	case strings.Contains(gap, "\r"):
+		return "CR"
+	case strings.Contains(gap, "\n"):
+		return "newline"
 	}
 	return "plain"
 }
@@ -352,6 +384,19 @@ func spanKey(red, mode, clause string) (key string, detail string) {
 				return fmt.Sprintf("shebang: token positions refer to the text after the stripped first line [%s]", m), f.Detail
 			}
 		}
+	}
+	if strings.HasPrefix(red, "<!DOCTYPE") && mode == modePlain {
+		// Tokenize hands such a document to the HtmlLexer
+		gc := htmlGapClass(gap)
+		switch clause {
+		case "line":
+			return fmt.Sprintf("line: drift after %s [html]", gc), f.Detail
+		case "literal":
+			return fmt.Sprintf("literal: %s text differs from its span [html]", f.Class), f.Detail
+		case "child":
+			return fmt.Sprintf("child: interpolation child outside parent, %s [html]", htmlGapClass(victim)), f.Detail
+		}
+		return fmt.Sprintf("%s: %s after %s [html]", clause, f.Class, gc), f.Detail
 	}
 	switch clause {
 	case "line":
